@@ -61,6 +61,6 @@ PROPS = {
     "C15": {"suites": ["listing", "parser", "programs"], "assumptions": ["for type faults the range convention is pinned by experiment per kind of subexpression (programs suite: one generated subexpression of a wrong type at a position whose expected type is known; its byte span in the rendered text is compared with the ranges passed to `listing`, hook H3)", "Unicode whitespace classification is a parameter of the model, supplied per input", "ranges of scoping/type diagnostics are compared through hook H3 (ranges passed to listing) in the parser suite"]},
     "C16": {"suites": ["print", "programs"], "assumptions": ["the whole round trip print -> tokenize -> parse -> re-associate -> resolve is proved to return the term itself for hole-free printable well-scoped terms (C16_read_back) — about the five MODELS (printer, tokenizer, parser, passes, resolver); each model is tied to the Rust by its correspondence suite, and the printed text is re-read by the real tokenizer and parser on every run (oracle on the implementation)"]},
     "C19": {"suites": ["programs", "pipeline"], "extra": [c19_step], "assumptions": ["acceptance-invariance is proved for if-true, annotated identity, unused definition and names, result-invariance additionally for naming a subexpression, reordering independent non-recursive definitions and redundant parentheses; typing invariance of naming/reordering is not proved; all of it is also searched: every rewrite kind at random sites of every generated program, outcome compared through the real pipeline"]},
-    "C07": {"suites": ["parser", "programs"], "assumptions": ["unambiguity of the grammar is proved (C07_unambiguous); completeness of the parser is proved for the printed sublanguage only (C16_parse_printed); in general, completeness w.r.t. grammar.y is watched by enumeration (Earley recogniser over the grammar file, every token sequence up to a length bound, every generated sentence)"]},
+    "C07": {"suites": ["parser", "programs"], "assumptions": ["soundness, completeness and unambiguity are proved for the parser MODEL (C07_parse_sound, C07_parse_complete, C07_unambiguous); the model is tied to parser.rs by the steps translator and by correspondence, and the iff is additionally watched on the implementation by enumeration (Earley recogniser over the grammar file, every token sequence up to a length bound, every generated sentence)"]},
     "C08": {"suites": ["parser", "programs"], "assumptions": ["the specification toDB (binder stack) is part of the trusted statements; the reference resolver in the harness (resolve_ref.rs) is an independent third implementation"]},
 }
